@@ -339,6 +339,7 @@ func runC12(c *Ctx) []Violation {
 	} else {
 		s = sched.New(c.T)
 		s.Policy = policy
+		s.Soft = sched.DrawSoft(c.T, nOwners)
 		fns := make([]func(*sched.Task), nOwners)
 		for i := range owners {
 			o := owners[i]
@@ -353,6 +354,9 @@ func runC12(c *Ctx) []Violation {
 		c.Events += int64(s.Steps)
 		c.Count("task-switches", int64(s.Switches))
 		c.SigMix(s.TraceSig())
+		for _, r := range res {
+			c.Count("soft-yields-taken", int64(r.SoftTaken))
+		}
 	}
 	total, removals := 0, 0
 	ids := map[int64]int{}
